@@ -179,17 +179,17 @@ theorem SameM_startConverter {k : Nat} (s : St) : SameM k s (startConverter s) :
       · exact h2.2.2.1.trans h1.2.2.1
       · exact h2.2.2.2.2.2.2.trans h1.2.2.2.2.2.2.2
 
-theorem SameM_detachConv {k : Nat} (s : St) (n c : String) : SameM k s (detachConv s n c) := by
-  rw [detachConv_eq]
-  split
-  · exact SameM.refl _ _
-  · next t ht =>
-    have h0 : SameM k s (setTag s n { t with convs := t.convs.filter (· != c) }) :=
-      SameM_setTag s n n t _ ht (fun _ h => h)
-    refine h0.trans ?_
-    unfold dc2
-    simp only []
-    split <;> exact SameM_of_eq rfl rfl rfl
+-- CHANGED (dropped): was `SameM_detachConv : SameM k s (detachConv s n c)`; `detachConv` may now start a tagging
+-- job (`jTag` changes), so `SameM` holds for the part before the dropped-output step (`dc2`) only; the
+-- preservation of `MI` by the whole `detachConv` is `MI_detachConv` below
+theorem SameM_dc2 {k : Nat} (s : St) (n c : String) (t : Tag) (ht : sget s.tags n = some t) :
+    SameM k s (dc2 s n c t) := by
+  have h0 : SameM k s (setTag s n { t with convs := t.convs.filter (· != c) }) :=
+    SameM_setTag s n n t _ ht (fun _ h => h)
+  refine h0.trans ?_
+  unfold dc2
+  simp only []
+  split <;> exact SameM_of_eq rfl rfl rfl
 
 theorem SameM_attachConv {k : Nat} (s : St) (n c : String) : SameM k s (attachConv s n c).1 := by
   unfold attachConv
@@ -265,6 +265,32 @@ theorem MI_startTagging (s : St) (choice : Option String) (h : MI s) : MI (start
         intro n' snap held e
         cases e
         exact h.1 (n, t) hm
+
+-- CHANGED (dropped): `outputDropped` keeps the matches of every tag; a job it starts snapshots a table entry
+theorem MI_outputDropped (s : St) (choice : Option String) (h : MI s) : MI (outputDropped s choice) := by
+  unfold outputDropped
+  split
+  · simp only []
+    apply MI_startTagging
+    apply MI_of_sameM (SameM_invDuring _ _)
+    apply MI_of_sameM (SameM_inherit _)
+    refine MI_of_sameM (s := s) ⟨rfl, rfl, fun hh => MB_map hh _ ?_⟩ h
+    rintro ⟨n, t⟩
+    simp only []
+    split <;> rfl
+  · exact h
+
+-- CHANGED (dropped): replaces `SameM_detachConv` (see `SameM_dc2`)
+theorem MI_detachConv (s : St) (n c : String) (choice : Option String) (h : MI s) :
+    MI (detachConv s n c choice) := by
+  rw [detachConv_eq]
+  split
+  · exact h
+  · next t ht =>
+    have h2 : MI (dc2 s n c t) := MI_of_sameM (SameM_dc2 s n c t ht) h
+    rcases dc3_cases s n c t choice with e | e <;> rw [e]
+    · exact h2
+    · exact MI_outputDropped _ _ h2
 
 theorem fresh_sub (m : List Nat) (l : List Nat) (acc : List Nat) (x : Nat)
     (h : x ∈ l.foldl (fun (acc : List Nat) x => if m.contains x || acc.contains x then acc else acc ++ [x]) acc) :
@@ -508,9 +534,9 @@ theorem mi_delTag (s : St) (st : Started) (name : String) (h : MI s) :
     · exact h
     · simp only []
       refine MI_of_sameM (SameM_foldl _ _ (fun s r => SameM_delRefBy s r name) _) ?_
-      have h1 : MI (t.convs.foldl (fun s c => detachConv s name c) s) :=
-        MI_of_sameM (SameM_foldl _ _ (fun s c => SameM_detachConv s name c) _) h
-      exact MI_of_sameM (s := t.convs.foldl (fun s c => detachConv s name c) s)
+      have h1 : MI (t.convs.foldl (fun s c => detachConv s name c st.tag) s) :=
+        foldl_inv MI _ _ (fun s c _ hs => MI_detachConv s name c st.tag hs) s h
+      exact MI_of_sameM (s := t.convs.foldl (fun s c => detachConv s name c st.tag) s)
         ⟨rfl, rfl, fun hh => MB_sdel hh _⟩ h1
 theorem SameM_setTag_bound {k : Nat} (s : St) (n : String) (t' : Tag) (hb : ∀ id ∈ t'.mat, id < k) :
     SameM k s (setTag s n t') := ⟨rfl, rfl, fun hh => MB_sins hh _ _ hb⟩
@@ -605,7 +631,7 @@ theorem mi_updConv (s : St) (st : Started) (name : String) (convs : List String)
     · simp only []
       apply MI_of_sameM (SameM_startConverter _)
       apply MI_of_sameM (SameM_foldl _ _ (fun s c => SameM_attachConv s name c) _)
-      exact MI_of_sameM (SameM_foldl _ _ (fun s c => SameM_detachConv s name c) _) h
+      exact foldl_inv MI _ _ (fun s c _ hs => MI_detachConv s name c st.tag hs) s h
 theorem MI_mono_next (s s' : St) (h1 : s'.tags = s.tags) (h2 : s.next ≤ s'.next) (h3 : s'.jTag = s.jTag)
     (h : MI s) : MI s' := by
   refine ⟨h1 ▸ MB_mono h.1 h2, ?_⟩
